@@ -65,6 +65,21 @@ func findItemIndex(slice []uint32, val uint32) int {
 }
 
 // MarkSessionQer : identify and Mark session QER with flag.
+// labelLikeStored gives the QERs of a message the QoS level of the stored QER
+// with the same ID. It is called right after MarkSessionQer has labelled the
+// stored QERs: choosing the session QER again among the QERs of the message
+// alone goes wrong as soon as the message carries only some of them (a
+// modification that updates just the session QER left it application-level).
+func (s *PFCPSession) labelLikeStored(qers []qer) {
+	for i := range qers {
+		for _, stored := range s.qers {
+			if stored.qerID == qers[i].qerID {
+				qers[i].qosLevel = stored.qosLevel
+			}
+		}
+	}
+}
+
 func (s *PFCPSession) MarkSessionQer(qers []qer) {
 	if len(s.pdrs) == 0 {
 		// a session without PDRs has no session QER to mark
